@@ -132,6 +132,82 @@ def rule_r2(repo):
     rr.require_floor(6)
     return rr
 
+def rule_recall(repo, rule='C07.R16'):
+    """Chains of bitmap operators on one coder state, folded call by call (define = store + build_bitmapped_descriptors, as
+    define_bitmap does; recall_bitmap; cancel_bitmap): after 237000 the following marker / quality values are matched to the zero
+    bits of the bitmap that 236000 defined for reuse - not to those of whatever bitmap was built last - and after 237255 there is
+    nothing left to recall."""
+    from sa.patheval import Interp
+    rr = RuleResult(rule, '237000 recalls the bitmap defined for reuse (also after a later bitmap that is not for reuse); 237255 leaves nothing to recall')
+    build = repo.method('CoderState', 'build_bitmapped_descriptors')
+    recall = repo.method('CoderState', 'recall_bitmap')
+    cancel = repo.method('CoderState', 'cancel_bitmap')
+    E = lambda i: element(i)
+    descs = [E(12101), E(10004), E(11002), Obj('OperatorDescriptor', {'id': 222000})]
+
+    def step(it, fi, st, **kw):
+        res = it.run_function(fi, lambda: dict({'self': st}, **kw), self_class='CoderState')
+        if len(res) != 1:
+            raise AnalysisError('%s forks on a concrete state' % fi.qualname)
+        return res[0]
+
+    def drain(it, st, n):
+        """ids designated by the next n calls of state.next_bitmapped_descriptor(): the stored partial(next, iterator) is read off"""
+        from sa.patheval import PartialCall
+        f = st.fields.get('next_bitmapped_descriptor')
+        if not (isinstance(f, PartialCall) and f.target == ('builtin', 'next') and f.pre_args and isinstance(f.pre_args[0], Obj) and f.pre_args[0].cls == 'iter'
+                and isinstance(f.pre_args[0].fields.get('of'), list)):
+            raise AnalysisError('next_bitmapped_descriptor is %r: not partial(next, iter(<list>)), the rule cannot follow it' % (f,))
+        itr = f.pre_args[0]
+        rest = list(itr.fields['of'])[itr.fields.get('pos', 0):]
+        out = [v[1].fields['id'] if isinstance(v, tuple) and len(v) == 2 and isinstance(v[1], Obj) else repr(v) for v in rest[:n]]
+        if len(rest) < n:
+            out.append('raise StopIteration')
+        return out
+    A, B = [0, 1, 0], [1, 0, 1]
+    scenarios = [
+        ('define for reuse, recall', [('define', A, True), ('recall',)], [12101, 11002], A),
+        ('define for reuse, a second bitmap not for reuse, recall', [('define', A, True), ('define', B, False), ('recall',)], [12101, 11002], A),
+        ('define for reuse, a second bitmap for reuse, recall', [('define', A, True), ('define', B, True), ('recall',)], [10004], B),
+        ('define for reuse, cancel (237255), recall', [('define', A, True), ('cancel',), ('recall',)], 'error', None),
+    ]
+    for name, steps, want, want_bitmap in scenarios:
+        it = WalkInterp(repo, 'Decoder')
+        st = make_state(repo, it, {'decoded_descriptors': list(descs), 'back_reference_boundary': 3, 'back_referenced_descriptors': None})
+        outcome, value = 'ok', None
+        for s_ in steps:
+            if s_[0] == 'define':
+                if s_[2]:
+                    st.fields['bitmap'] = list(s_[1])
+                st.fields['most_recent_bitmap_is_for_reuse'] = s_[2]
+                r = step(it, build, st, bitmap=list(s_[1]))
+            elif s_[0] == 'cancel':
+                r = step(it, cancel, st)
+            else:
+                r = step(it, recall, st)
+                value = r.value if r.ok else None
+            if not r.ok:
+                outcome = 'raise ' + r.exc.cls
+                break
+        rr.instance(name)
+        if want == 'error':
+            if outcome == 'ok':
+                got = drain(it, st, 2)
+                rr.fail('recall_bitmap:after-cancel', recall.where, '%s: recall_bitmap returns %r and the next values are matched to %s; after 237255 no bitmap is defined '
+                        'for reuse, so 237000 must be refused with a library error' % (name, value, got), witness={'scenario': name})
+            elif not repo.is_subclass(outcome.split(' ')[1], 'PyBufrKitError'):
+                rr.fail('recall_bitmap:after-cancel', recall.where, '%s: ends in %s, not a library error' % (name, outcome), witness={'scenario': name})
+            continue
+        if outcome != 'ok':
+            rr.fail('recall_bitmap:chain', recall.where, '%s: %s' % (name, outcome), witness={'scenario': name})
+            continue
+        got = drain(it, st, len(want))
+        if got != want or value != want_bitmap:
+            rr.fail('recall_bitmap:chain', recall.where, '%s: after recall_bitmap (which returns %r) the next %d values are matched to %s; the bitmap defined for reuse is %s '
+                    'over 012101 010004 011002, whose zero bits designate %s' % (name, value, len(want), got, want_bitmap, want), witness={'scenario': name})
+    rr.require_floor(4)
+    return rr
+
 
 def rule_r3(repo, tier):
     rr = RuleResult('C07.R3', '225255 values are coded with width + 1 and reference -2**width; other markers keep the element coding')
@@ -396,6 +472,7 @@ def run(repo, check):
     check.run_rule(rule_r4, repo)
     check.run_rule(rule_r5, repo)
     check.run_rule(rule_r6, repo)
+    check.run_rule(rule_recall, repo)
     r7 = c09.rule_r1(repo, 'C07.R7')
     r7.title = 'coder / wirer lockstep (shared with C09.R1): attributes attach to the right flat entries only if both sides count alike'
     check.add(r7)
